@@ -162,3 +162,11 @@ package server
 //@   requires c != nil
 //@   ensures[admit@C18] (action == core.Close) == (authip.IpMap.enable && !authip.admitted(peerhost(c)))
 //@   ensures[silent@C18] out == nil && (action == core.Close || action == core.None)
+
+// ---- the once-a-second probe: CLUSTER NODES to a random known node (C14) ----
+//@ func listenServer.OnTicker
+//@   props C14
+//@   requires core.EngineGlobal != nil
+//@   requires forall a string :: has(core.EngineGlobal.ProxyPool, a) ==> core.EngineGlobal.ProxyPool[a] != nil
+//@   assume at call Pool.Get#0 :: core.pwf(pool)
+//@   modifies liveSlaves, core.activeList.count, core.activeList.front, core.activeList.back, core.poolConn.next, core.poolConn.prev, core.poolConn.c, core.eventloop.connections, allmaps(core.EngineGlobal.eng.el.connections), core.conn.opened
